@@ -31,7 +31,7 @@ contract(NTY + "._look_for_last_index_of_unspaced_token", params={"target_str": 
              " or (result == len(target_str) - 2 and str_at(target_str, result + 1) == '.')"],   # and is maximal (up to the statement's final dot)
     raises=[], loops={0: {"invariant": ["first_index <= index and index <= len(target_str)", NOBLANK.format("target_str[first_index:index]")],
                           "decreases": "len(target_str) - index"}},
-    props=["C06", "C04"], note="end of a blank-node / number / tagged or typed literal token; terminates, never moves backwards")
+    props=["C06", "C04", "C01"], note="end of a blank-node / number / tagged or typed literal token; terminates, never moves backwards")
 contract(NTY + "._look_for_last_index_of_uri_token", params={"target_str": Str, "first_index": Int}, returns=Int,
     requires=["0 <= first_index and first_index < len(target_str)", "str_at(target_str, first_index) == '<'"],
     ensures=["first_index <= result and result < len(target_str)",
